@@ -326,6 +326,51 @@ def parallel(modname, fname, arglist, procs=None, chunksize=1):
         return pool.map(_call, jobs, chunksize=chunksize)
 
 
+def ddmin(items, still_fails, budget=200):
+    """
+    delta debugging on a list: smallest sub-list (order kept) found within `budget` evaluations on which
+    still_fails(sub_list) stays true.  Used to shrink history-dependent failures that are not Hypothesis cases.
+    """
+    items = list(items)
+    n = 2
+    calls = 0
+    while len(items) >= 2 and calls < budget:
+        chunk = max(1, len(items) // n)
+        reduced = False
+        for i in range(0, len(items), chunk):
+            cand = items[:i] + items[i + chunk:]
+            calls += 1
+            if cand and still_fails(cand):
+                items = cand
+                n = max(n - 1, 2)
+                reduced = True
+                break
+            if calls >= budget:
+                break
+        if not reduced:
+            if chunk == 1:
+                break
+            n = min(len(items), n * 2)
+    return items
+
+
+def fresh_fails(pid, check, inp):
+    """does the replayable check fail on this input in a FRESH process (no state left over from earlier cases)?"""
+    import subprocess
+    import tempfile
+    d = tempfile.mkdtemp(prefix="vfreplay")
+    try:
+        path = os.path.join(d, "case.json")
+        with open(path, "w") as f:
+            json.dump({"property": pid, "check": check, "input": inp}, f, default=repr)
+        env = dict(os.environ, VERIF_REPO=REPO, VERIF_OUT=d)
+        p = subprocess.run([sys.executable, "-m", "vf", pid, "replay", path], cwd=HOME, env=env, stdout=subprocess.PIPE, stderr=subprocess.STDOUT)
+        return p.returncode == 1
+    finally:
+        import shutil
+        shutil.rmtree(d, ignore_errors=True)
+
+
 def in_thread(fn, *a):
     """run fn(*a) in a fresh non-main thread (fresh thread-local state, e.g. the default decimal context)"""
     import threading
